@@ -11,6 +11,7 @@ import Gofasta.Driver.Fault
 import Gofasta.Driver.Csv
 import Gofasta.Driver.SamText
 import Gofasta.Driver.GffText
+import Gofasta.Driver.GbText
 namespace Gofasta.Driver
 
 def dispatch (c : Case) : Verdict :=
@@ -33,6 +34,7 @@ def dispatch (c : Case) : Verdict :=
   | "CSV" => runCsv c
   | "SAMTXT" => runSamText c
   | "GFFTXT" => runGffText c
+  | "GBTXT" => runGbText c
   | _ => { agree := false, spec := "na", model := "unknown-property" }
 
 end Gofasta.Driver
